@@ -235,13 +235,22 @@ class SetEncoder(encoder.SequenceEncoder):
             if namedType:
                 options.update(ifNotEmpty=namedType.isOptional)
 
-            chunk = encodeFun(comp, compType, **options)
-
             # wrap open type blob if needed
-            if namedType and namedType.openType:
-                wrapType = namedType.asn1Object
-                if wrapType.tagSet and not wrapType.isSameTypeWith(comp):
-                    chunk = encodeFun(chunk, wrapType, **options)
+            if (namedType and namedType.openType and
+                    namedType.asn1Object.typeId in (
+                        univ.SetOf.typeId, univ.SequenceOf.typeId)):
+                # each element gets wrapped on its own
+                chunk = encodeFun(
+                    comp, compType,
+                    **dict(options, wrapType=namedType.asn1Object.componentType))
+
+            else:
+                chunk = encodeFun(comp, compType, **options)
+
+                if namedType and namedType.openType:
+                    wrapType = namedType.asn1Object
+                    if wrapType.tagSet and not wrapType.isSameTypeWith(comp):
+                        chunk = encodeFun(chunk, wrapType, **options)
 
             substrate += chunk
 
